@@ -82,11 +82,12 @@ Fixpoint validate (fuel : nat) (els : list text) : res (list text) :=
     end
   end.
 
-(* the token list of SFDLTokens: the elements consumed by the validation (trailing elements are dropped) *)
+(* the token list of SFDLTokens: the elements consumed by the validation - which have to be all of them ("Unexpected text after
+   the structure") *)
 Definition tokens_of (src : text) : res (list text) :=
   let els := elements_of src in
   do rest <- validate (S (length els)) els;
-  Ok (firstn (length els - length rest) els).
+  match rest with [] => Ok (firstn (length els - length rest) els) | _ => Err EValue end.
 
 (* ---------- _generate_from_sfdl ---------- *)
 Inductive fmt := FItem (name : text) | FList (items : list fmtel)
